@@ -60,3 +60,38 @@ Definition hand_out (outs sinks : list N) (frame : list N) (prio : N) : list eve
 
 (* the candidate sources of the universe in a world: its input ports, then its source clients *)
 Definition sources (w : world) : srcs := port_sources w ++ client_sources w.
+
+(* ---- history level ----
+   What one call means for the universe, abstracted from how the call is made: an update of source
+   [chg] at clock reading [now] with the candidate sources [cands] of that moment (after the new frame
+   was stored) in mode [ltp]; an explicit override of the frame (SetDMX); or anything else. [outs]/[sinks]
+   are the patched output ports and registered sink clients at that moment. *)
+Inductive happening :=
+| HUpdate (ltp : bool) (chg : sid) (now : N) (cands : srcs) (outs sinks : list N)
+| HOverride (frame : list N) (prio : N) (outs sinks : list N)
+| HOther.
+
+(* the change a happening makes, per the property text: new frame, priority it is handed out with,
+   and the recipients; None = nothing changes *)
+Definition change_of (h : happening) : option (list N * N * list N * list N) :=
+  match h with
+  | HUpdate ltp chg now cands outs sinks =>
+    match expected ltp chg (group now cands) with
+    | Some f => Some (f, gprio (group now cands), outs, sinks)
+    | None => None
+    end
+  | HOverride f p outs sinks => Some (f, p, outs, sinks)
+  | HOther => None
+  end.
+Definition frame_after (buf : list N) (h : happening) : list N :=
+  match change_of h with Some (f, _, _, _) => f | None => buf end.
+Definition calls_of (h : happening) : list event :=
+  match change_of h with Some (f, p, outs, sinks) => hand_out outs sinks f p | None => [] end.
+(* the frame a universe must hold after a history (it starts empty) *)
+Definition spec_frame (hs : list happening) : list N := fold_left frame_after hs [].
+
+(* recipients of a call *)
+Definition to_port (p : N) (e : event) : bool :=
+  match e with WriteDMX q _ _ => q =? p | SendDMX _ _ _ => false end.
+Definition to_client (c : N) (e : event) : bool :=
+  match e with SendDMX q _ _ => q =? c | WriteDMX _ _ _ => false end.
